@@ -67,6 +67,21 @@ func Family(quick bool) []*wm.World {
 			res = append(res, &wm.World{WLs: t, ANPs: []wm.ANP{a}, BANP: &wm.ANP{Name: "default", Subject: wm.APeer{Namespaces: all}, Ingress: []wm.ARule{{Action: "Deny", Peers: []wm.APeer{{Namespaces: all}}}}}})
 		}
 	}
+	// ingress worlds: {ingress-controller} lines appear, change and disappear between members
+	w1p := w1
+	w1p.Ports = []wm.CPort{{Name: "http", Num: 80}, {Num: 8080}}
+	for _, pol := range [][]wm.NP{nil,
+		{{NS: "ns1", Name: "p", PodSel: wm.Sel{ML: map[string]string{"app": "a"}}, Types: []string{"Ingress"}, Ingress: []wm.NPRule{{Peers: []wm.NPPeer{{NSSel: all}}, Ports: []wm.NPPort{{HasPort: true, Num: 80}}}}}},
+		{{NS: "ns1", Name: "p", PodSel: wm.Sel{ML: map[string]string{"app": "a"}}, Types: []string{"Ingress"}}}} {
+		for _, svcPorts := range [][]wm.SvcPort{nil, {{Name: "p1", Port: 80}}, {{Name: "p1", Port: 80}, {Name: "p2", Port: 8080}}} {
+			w := &wm.World{WLs: []wm.Workload{w1p, w2}, NPs: pol}
+			if svcPorts != nil {
+				w.Svcs = []wm.Svc{{NS: "ns1", Name: "s", Sel: map[string]string{"app": "a"}, Ports: svcPorts}}
+				w.Routes = []wm.Route{{NS: "ns1", Name: "r", To: []string{"s"}}}
+			}
+			res = append(res, w)
+		}
+	}
 	return res
 }
 
